@@ -1,4 +1,5 @@
 def setup(chk):
     chk.add_tu('C10.cpp')
+    chk.add_tu('C10h.cpp')   # table entries of std::vector / std::string: the fault may land on Ensure()
     chk.extra_evidence.update({'bounds_text': 'every core-pool type (incl. tables: errors cross the internal BoundedWriter/BoundedReader) + a structure with Handle and Optional<Handle>; values symbolic; the fault position k is ONE symbolic byte (so every call index of every operation is covered in a single query, k beyond the last call = no fault) and the error is any of the 18 non-None codes; reads run over the reference encoding of a symbolic value',
       'outside_bounds': ['heap containers', 'RPC sender/receiver (C14)', 'two faults in one operation (the operation stops at the first)']})
